@@ -1089,6 +1089,36 @@ def inline_helpers(trees: Dict[str, ast.Module], anchors: Optional[Set[str]] = N
                 notes.append(f"{mod}: {(cname + '.') if cname else ''}{hname} -> {h.inlined} site(s), dissolved")
             else:
                 notes.append(f"{mod}: {(cname + '.') if cname else ''}{hname} -> {h.inlined} site(s), kept ({refs} other reference(s))")
+    # closures new to the tree (a local function that the audited tree does not have and no rule names) are read
+    # through inside the function that defines them: they share its scope, so nothing needs to be bound
+    base_ = _baseline_defs()
+    if base_:
+        wsn_ = whole_string_names()
+        for mod, tree in trees.items():
+            for outer in [n for n in ast.walk(tree) if isinstance(n, _FUNC)]:
+                local: Dict[Tuple[Optional[str], str], _Helper] = {}
+                for st in outer.body:
+                    if isinstance(st, ast.FunctionDef) and st.name not in base_ and st.name not in wsn_ and not st.decorator_list:
+                        k = _classify(st)
+                        if k and not _calls_name(st, st.name):
+                            # a closure that re-binds a variable of the enclosing function cannot be read through
+                            if _stored_names(st) & (_names_used(outer) - _names_used(st)) - {a.arg for a in st.args.args}:
+                                pass
+                            local[(None, st.name)] = _Helper(st, None, k)
+                if not local:
+                    continue
+                for _round in range(3):
+                    if _inline_in_function(outer, local, None) == 0:
+                        break
+                for (_c, hname), h in local.items():
+                    if not h.inlined:
+                        continue
+                    refs = sum(1 for x in ast.walk(outer) if isinstance(x, ast.Name) and x.id == hname)
+                    if refs == 0 and h.node in outer.body:
+                        outer.body.remove(h.node)
+                        notes.append(f"{mod}: closure {hname} of {outer.name} -> {h.inlined} site(s), dissolved")
+                    else:
+                        notes.append(f"{mod}: closure {hname} of {outer.name} -> {h.inlined} site(s), kept")
     # helpers new to the tree: dissolved when every reference was read through
     done_: Set[int] = set()
     for hkey, h in sorted(new_helpers.items()):
